@@ -30,8 +30,8 @@ RULE = (
 )
 ASSUMPTIONS = [
     "constraint application is left at its default (enabled) in every move and integrator",
-    "fixed atoms: bitwise equality with the initial positions; FixCom: centre-of-mass drift <= 1e-9 A times max(1, largest coordinate) (trajectories whose coordinates exceed 1e6 A - accept-all schedules heating a Hamiltonian run - are not judged); FixRot: |L| <= 1e-9 * sum|r||p| and |dP| <= 1e-12 * sum|p|",
-    "FixRot geometries have inertia-tensor condition number <= 1e3 (non-degenerate, as the statement requires)",
+    "fixed atoms: bitwise equality with the initial positions; FixCom: centre-of-mass drift <= 1e-9 A times max(1, largest coordinate) (trajectories whose coordinates exceed 1e6 A - accept-all schedules heating a Hamiltonian run - are not judged); FixRot: |L| <= (1e-9 + 1e-14 x condition number) * sum|r||p| and |dP| <= (1e-12 + 1e-14 x condition number) * sum|p|",
+    "FixRot geometries have inertia-tensor condition number <= 1e6 (nearly linear ones included) (non-degenerate, as the statement requires)",
     "FixAtoms and FixCom are never combined on one Atoms object: ASE applies constraints one after the other, so FixCom's rigid shift moves the atoms FixAtoms has just restored (an ASE semantics, observed, not a quansino defect)",
 ]
 REQUIRED = {"simulations_constrained_after_free_steps": 10, "forcebias_sims_with_custom_displacement_masses": 10, "trials_fixatoms": 800, "trials_fixcom": 500, "forcebias_steps": 300, "hamiltonian_trials": 150, "fixrot_calls": 2000, "moved_trials": 1000, "exchange_trials_with_fixed_framework": 100}
@@ -213,6 +213,9 @@ def run_fb(spec, rec):
             rec.viol(f"C12/run-raised/{classify_exception(ex)}", f"force-bias simulation raised {type(ex).__name__}: {ex}"[:300], {**wit0, "traceback": traceback.format_exc()[-500:]})
 
 
+COND: dict = {}
+
+
 def run_fixrot(spec, rec):
     from ase import Atoms
 
@@ -238,10 +241,12 @@ def run_fixrot(spec, rec):
         L = np.cross(r, momenta).sum(0)
         scale = float((np.linalg.norm(r, axis=1) * np.linalg.norm(p_before, axis=1)).sum()) + 1e-300
         wit = {"natoms": len(atoms), "masses": atoms.get_masses()[:6], "L_after": L, "scale": scale}
-        if not np.all(np.isfinite(momenta)) or np.abs(L).max() > 1e-9 * scale:
+        # rounding in the projection grows with the inertia tensor's condition number (measured on the pinned code:
+        # about 2e-16 x condition number); the floor of 1e-9 covers condition numbers up to a few 1e6
+        if not np.all(np.isfinite(momenta)) or np.abs(L).max() > (1e-9 + 1e-14 * COND.get("now", 1.0)) * scale:
             rec.viol("C12/FixRot/angular-momentum-left", f"total angular momentum after the constraint is {L} (scale {scale:.3g})", wit)
         dP = momenta.sum(0) - p_before.sum(0)
-        if np.abs(dP).max() > 1e-12 * (np.abs(p_before).sum() + 1e-300):
+        if np.abs(dP).max() > (1e-12 + 1e-14 * COND.get("now", 1.0)) * (np.abs(p_before).sum() + 1e-300):
             rec.viol("C12/FixRot/linear-momentum-changed", f"total linear momentum changed by {dP}", wit)
         return out
 
@@ -249,13 +254,23 @@ def run_fixrot(spec, rec):
     done = 0
     while done < spec["n"]:
         n = int(rng.integers(3, 12))
-        pos = rng.normal(size=(n, 3)) * float(10 ** rng.uniform(-0.5, 1)) + rng.uniform(-20, 20, 3)
+        if rng.random() < 0.3:
+            # nearly (but not) collinear: a chain with small lateral offsets (bent linear molecules, rods with a light
+            # atom slightly off the axis); the inertia tensor's condition number goes up to 1e6
+            d_ = rng.normal(size=3)
+            d_ /= np.linalg.norm(d_)
+            L_ = float(10 ** rng.uniform(0, 1.3))
+            pos = np.outer(np.sort(rng.uniform(-1, 1, n)) * L_, d_) + rng.normal(size=(n, 3)) * float(10 ** rng.uniform(-3.2, -0.5)) * L_ + rng.uniform(-20, 20, 3)
+            rec.count("fixrot_nearly_linear_geometries")
+        else:
+            pos = rng.normal(size=(n, 3)) * float(10 ** rng.uniform(-0.5, 1)) + rng.uniform(-20, 20, 3)
         masses = 10 ** rng.uniform(0, float(rng.choice([0.1, 1.0, 2.3])), n)
         atoms = Atoms("H" * n, positions=pos)
         atoms.set_masses(masses)
         ev = atoms.get_moments_of_inertia()
-        if ev.min() <= 0 or ev.max() / ev.min() > 1e3:
+        if ev.min() <= 0 or ev.max() / ev.min() > 1e6:
             continue
+        COND["now"] = float(ev.max() / ev.min())
         atoms.set_constraint(FixRot())
         p = rng.normal(size=(n, 3)) * np.sqrt(masses)[:, None] * float(10 ** rng.uniform(-2, 1))
         if done % 2:
